@@ -105,6 +105,7 @@ class Funcs:
         self.items = []
         self.names = []
         self.decls = []
+        self.skipped = []
 
     def fn(self, name):
         it = self.m.src.fn(name, within=self.m.impl, name='%s::%s::%s' % (self.m.name.lower(), self.m.name, name))
@@ -141,7 +142,13 @@ class Funcs:
         self.emit(self.fn('is_dirty'), ('b', 'requires self.inv(),\n        ensures b == (%s),' % '\n            || '.join(parts)),
                   self.is_dirty_hints())
         if self.with_move:
-            self.move_fn()
+            n_items, n_names, n_decls = len(self.items), len(self.names), len(self.decls)
+            try:
+                self.move_fn()
+            except G.Unsupported as e:
+                # this model's move_new_to_old has a shape the contract generator does not cover: leave it out (stated in the evidence)
+                del self.items[n_items:], self.names[n_names:], self.decls[n_decls:]
+                self.skipped.append('%s::move_new_to_old: %s' % (self.m.name, e))
         return self.items
 
 
@@ -290,6 +297,10 @@ class Funcs:
                     st = G.stored_of_canonical(m, c, ['t[%d]' % i for i in range(n)])
                     h.append('    if nonempty(self.t_%s_new()) { let t = choose|t: Seq<u32>| self.t_%s_new().contains(t); assert(%s =~= t); assert(self.%s@.contains(%s)); }'
                              % (r, r, G.seq_lit(['%s[%d]' % (G.seq_lit(st), x) for x in a]), c.field, G.seq_lit(st)))
+                    canon_s = G.seq_lit(['s[%d]' % x for x in a])
+                    st_of_canon = G.seq_lit(G.stored_of_canonical(m, c, ['%s[%d]' % (canon_s, i) for i in range(n)]))
+                    h.append('    if exists|s: Seq<u32>| self.%(f)s@.contains(s) { let s = choose|s: Seq<u32>| self.%(f)s@.contains(s); self.%(f)s.lemma_len(s); assert(%(sc)s =~= s); assert(self.t_%(r)s_new().contains(%(cs)s)); }'
+                             % {'f': c.field, 'sc': st_of_canon, 'r': r, 'cs': canon_s})
         for t in m.types:
             f = m.typesets.get(t, {}).get('new')
             if f:
@@ -507,6 +518,12 @@ class Funcs:
         tys = m.rel_types[r]
         h.append('    assert(self.t_%s_old() == old(self).t_%s_old());' % (r, r))
         h.append('    assert([%s]@ =~= %s);' % (', '.join(pst0), G.seq_lit(pst0)))
+        h.append('    assert forall|t: Seq<u32>| #[trigger] self.t_%(r)s_new().contains(t) <==> (old(self).t_%(r)s_new().contains(t) || t == t0) by {' % {'r': r})
+        h.append('        if t.len() == %d { if %s == %s { assert(t =~= t0); } if t == t0 { assert(%s =~= %s); } }'
+                 % (n, G.seq_lit(pst), G.seq_lit(pst0), G.seq_lit(pst), G.seq_lit(pst0)) if p.order != list(range(n)) else
+                 '        if t == t0 { assert(%s =~= t0); } if !old(self).t_%s_new().contains(t) && self.t_%s_new().contains(t) { assert(t =~= t0); }' % (G.seq_lit(pst0), r, r))
+        h.append('    }')
+        h.append('    assert(self.t_%(r)s() =~= old(self).t_%(r)s().insert(t0));' % {'r': r})
         h.append('    assert forall|t: Seq<u32>| #[trigger] self.t_%s().contains(t) implies t.len() == %d%s by {' % (r, n, ''.join(' && t[%d] < self.n_%s()' % (i, tys[i]) for i in range(n))))
         h.append('        if !old(self).t_%s().contains(t) { %s assert(%s == %s); assert(t =~= t0); }' % (r, 'old(self).%s.lemma_len(%s);' % (p.field, G.seq_lit(pst)) if False else '', G.seq_lit(pst), G.seq_lit(pst0)))
         h.append('    }')
@@ -568,6 +585,7 @@ def build(repo, canary=False, probes=None, part='main'):
             A.text(d, 'evaluation function declared by contract only (assumption; bounded-checked by the native harness)')
         for it in its:
             A.item(it)
+        A.skipped = getattr(A, 'skipped', []) + fs.skipped
         A.exec_names += [x for x in fs.names if part == 'main' or (part == 'define' and '::define_' in x) or (part == 'move' and x.endswith('::move_new_to_old'))]
         A.text('}\n}\n', 'impl / module close')
     A.text('} // verus!\nfn main() {}\n', 'footer')
